@@ -1,6 +1,6 @@
 From Coq Require Import ZArith List Bool.
 Import ListNotations.
-Require Import GV.Gen.Consts GV.Model.Hcu GV.Model.Packets GV.Model.IO.
+Require Import GV.Gen.Consts GV.Model.Hcu GV.Model.Packets GV.Model.IO GV.Model.Utf8.
 Local Open Scope Z_scope.
 
 (* case kinds:
@@ -18,13 +18,13 @@ Definition ascii (l : list Z) : bool := forallb (fun x => x <? 128) l.
 Definition zero3 (w : list Z) : list Z := firstn 3 w ++ [0; 0; 0].
 Definition canon_pkt (p : packet) : option packet :=
   match p with
-  | PSession f n => if ascii (firstn 64 n) then Some (PSession f (firstn 64 n)) else None
-  | PInstance id ty a b c m s => if ascii m && ascii s then Some p else None
-  | PStatus n st e => if ascii n then Some p else None
+  | PSession f n => match utf8_take 64 n with Some pre => Some (PSession f pre) | None => None end   (* chars().take(64) *)
+  | PInstance id ty a b c m s => if utf8_clean m && utf8_clean s then Some p else None
+  | PStatus n st e => if utf8_clean n then Some p else None
   | PTarget w c => Some (PTarget (zero3 w) c)
   | PRotator s w r => Some (PRotator s [0; 0; 0] r)
   | PActor n segs =>
-      if ascii n && forallb (fun s => ascii (fst s)) segs
+      if utf8_clean n && forallb (fun s => utf8_clean (fst s)) segs
       then Some (PActor n (map (fun s => (fst s, zero3 (snd s))) segs)) else None
   | _ => Some p
   end.
